@@ -208,6 +208,21 @@ def unit_tables(unit):
             eq(f"imem-offset:{mm.group(1)}", int(OPC.IMEMRegisters[mm.group(1)]), val, "opcodes.IMEMRegisters", "memory.rs " + nm)
     for nm in ("BP", "PX", "PY", "KOL", "KOH", "KIL", "IMR", "ISR", "UCR", "USR", "SCR", "LCC", "SSR"):
         eq(f"imem-offset:{nm}:declared-in-rust", f"IMEM_{nm}_OFFSET" in mem, True, "memory.rs", "expected constant")
+    # the documented internal memory map (sc62015/pysc62015/README.md, "defined in opcodes.py") is a further copy of the
+    # offsets: every row of the table vs IMEMRegisters, and no named register missing from it in 0xEC..0xFF
+    import os as _os
+    readme = open(_os.path.join(REPO, "sc62015/pysc62015/README.md"), encoding="utf-8").read()
+    sect = readme[readme.index("### Internal Memory Map"):]
+    sect = sect[:sect.index("\n### ", 5)] if "\n### " in sect[5:] else sect
+    rows = re.findall(r"^\| \*\*(\w+)\*\* \| 0x([0-9A-Fa-f]{2}) \|", sect, flags=re.M)
+    eq("imem-offset:README:table-found", len(rows) >= 20, True, "README internal memory map", "at least the 20 rows BP..SSR")
+    for nm, hx in rows:
+        have = OPC.IMEMRegisters.__members__.get(nm)
+        eq(f"imem-offset:README:{nm}", None if have is None else int(have), int(hx, 16), "opcodes.IMEMRegisters", "README internal memory map")
+    documented = {nm for nm, _ in rows}
+    for nm, member in OPC.IMEMRegisters.__members__.items():
+        if 0xEC <= int(member) <= 0xFF:
+            eq(f"imem-offset:README:{nm}:documented", nm in documented, True, "opcodes.IMEMRegisters", "README internal memory map row")
     eq("vector:interrupt", OPC.INTERRUPT_VECTOR_ADDR, ev.get("INTERRUPT_VECTOR_ADDR"), "opcodes.INTERRUPT_VECTOR_ADDR", "eval.rs INTERRUPT_VECTOR_ADDR")
     eq("vector:reset", OPC.ENTRY_POINT_ADDR, ev.get("ROM_RESET_VECTOR_ADDR"), "opcodes.ENTRY_POINT_ADDR", "eval.rs ROM_RESET_VECTOR_ADDR")
     eq("internal-memory-start", K.INTERNAL_MEMORY_START, mem.get("INTERNAL_MEMORY_START"), "constants.INTERNAL_MEMORY_START", "memory.rs INTERNAL_MEMORY_START")
